@@ -450,6 +450,15 @@ def one_run(tape: Tape, stub: bool) -> dict:
                     break
                 if out_r.error is not None:
                     V.append({"clause": "C18.run-raised", "site": f"{out_r.error_site or '?'}@resume", "msg": f"the run resumed from the autosave written after unit of work {it['pcall']} raised {out_r.error!r} ({desc})"})
+                # the stepping state the resumed incarnation starts from must be the one the snapshot was taken in:
+                # nothing touches (time, target, step index, search, threshold, gap) between two trace events except
+                # sweep_complete itself, so the first event after the restart has to repeat the last one before the save
+                last = next((e[1] for e in reversed(prefix) if "idx" in e[1]), None)
+                first_r = next((e[1] for e in trace_r.ev if "idx" in e[1]), None)
+                if last is not None and first_r is not None:
+                    bad_f = [f"{f_}: {last[f_]!r} -> {first_r[f_]!r}" for f_ in ("t", "target", "idx", "finder", "thr", "gap") if not (last[f_] == first_r[f_] or (isinstance(last[f_], float) and math.isnan(last[f_])))]  # NaN: recorded during init(), before the first threshold was drawn
+                    if bad_f:
+                        V.append({"clause": "C18.resume-changes-stepping-state", "site": bad_f[0].split(":")[0], "msg": f"the run resumed from the autosave written after unit of work {it['pcall']} starts from a different stepping state than the one that was saved: {bad_f} (search active at the save: {it['finder']}) :: {desc}"})
                 comb = JumpTrace()
                 comb.ev = prefix + trace_r.ev
                 comb.target_times = trace.target_times
